@@ -33,7 +33,7 @@ REQUIRE = {'hits_checked': 5000, 'refused_by_count': 200, 'refused_by_period': 2
            'overlap_cases': 30, 'hits_while_collection_open': 30, 'interpose_points': 15,
            'overlap_cases_with_condition': 8, 'sequential_probe_hits': 60,
            'line_preemption_points': 40, 'line_preemptions_where_second_hit_completed': 2,
-           'window_argument_cases': 6, 'straggler_cases': 6}
+           'window_argument_cases': 6, 'straggler_cases': 6, 'settings_that_are_not_text': 30}
 T0 = 1_700_000_000_000_000_000
 MS = 1_000_000
 
@@ -145,6 +145,13 @@ def case_hist(seed, out, spec, wd):
     fc_raw = r.pick([-1, 0, 1, 1, 2, 3, 10, '2', '-1', 'abc', '1.5', '', 'absent', ' 3 '])
     fp_raw = r.pick([0, 1, 10, 1000, '10', 'abc', 'absent', '0'])
     via_wire = r.chance(0.35)
+    if not via_wire and r.chance(0.08):
+        # a setting that is not even text (given in code): as unparsable as 'abc'
+        if r.chance(0.5):
+            fc_raw = r.pick([None, [], (2,)])
+        else:
+            fp_raw = r.pick([None, [], {}])
+        out.count('settings_that_are_not_text')
     win_kind = 'none' if via_wire else r.pick(['none', 'none', 'start', 'end', 'both'])
     cfg = {}
     if fc_raw != 'absent':
